@@ -25,7 +25,7 @@ func TestC10_LongChains(t *testing.T) {
 			prov = store.BufferedPaginatedStoreConstructor
 		}
 		acc := ddsketch.NewDDSketchWithExactSummaryStatistics(m, prov)
-		mode := rapid.SampledFrom([]string{"absorb-merge", "random-merge", "absorb-add", "random-add", "decode-merge", "mixed", "add-then-copy", "add-then-copy"}).Draw(t, "mode")
+		mode := rapid.SampledFrom([]string{"absorb-merge", "random-merge", "absorb-add", "random-add", "decode-merge", "mixed", "add-then-copy", "add-then-copy", "chain-merge", "chain-merge"}).Draw(t, "mode")
 		n := rapid.IntRange(500, 4000).Draw(t, "n")
 		cl.logf("C10 long chain mode=%s n=%d", mode, n)
 		cl.label("long-chain:" + mode)
@@ -73,6 +73,23 @@ func TestC10_LongChains(t *testing.T) {
 				} else {
 					step = "random-add"
 				}
+			}
+			if mode == "chain-merge" {
+				// an addition that rounds, then the accumulator - with everything its compensation term carries - is
+				// merged into a fresh sketch that takes its place: the argument of the merge is the one with the long
+				// history. (The receiver is empty on purpose: compensated summation cannot recover the rounding error of
+				// adding a term larger than the running sum, so that merging a long history into a short non-empty one
+				// legitimately costs up to an ulp each time - the per-step allowance of TestC10 covers that.)
+				if i%2 == 0 || rapid.Bool().Draw(t, "absorb") {
+					step = "absorb-add"
+				} else {
+					step = "random-add"
+				}
+				next := small()
+				if err := next.MergeWith(acc); err != nil {
+					t.Fatalf("C10 long: MergeWith: %v", err)
+				}
+				acc = next
 			}
 			if mode == "add-then-copy" || (mode == "mixed" && rapid.IntRange(0, 3).Draw(t, "copystep") == 0) {
 				switch rapid.IntRange(0, 2).Draw(t, "copykind") {
